@@ -27,7 +27,8 @@ RECURSIVE Between(_, _, _, _)
 Between(i, a, b, acc) == IF i > Len(ends) THEN acc
                          ELSE Between(i + 1, a, b, IF ends[i] > a /\ ends[i] <= b /\ i \in SetOf(pushIdx) THEN Append(acc, i) ELSE acc)
 ExecOK(ev) == /\ ev.ckpt \in SetOf(ends)                       \* an exact command boundary ...
-              /\ ev.ckpt > ckpt                                \* ... beyond the previous one ...
+              /\ (ev.ckpt > ckpt \/ (ev.ckpt = ckpt /\ ev.pushes = <<>>))   \* ... beyond the previous one (or the same one stored again by a
+                                                               \*     transaction without data: the opening SELECT of a resumed run flushed alone) ...
               /\ ev.ckpt <= sending                            \* ... within what the source has put on the wire ("src-sending" is logged BEFORE the
                                                                \*     write; "tool-recv" only after the bytes are already in the pipe, so it may trail)
               /\ ev.pushes = Between(1, ckpt, ev.ckpt, <<>>)   \* data and checkpoint move together, nothing twice, nothing skipped
@@ -46,7 +47,7 @@ TNext == /\ l <= Len(Trace) /\ l' = l + 1
             /\ pushIdx' = IF ev.e = "cfg" THEN ev.push_idx ELSE pushIdx
             /\ recv' = IF ev.e = "tool-recv" THEN recv + ev.n ELSE IF ev.e = "resume-from" THEN ev.n ELSE IF ev.e = "cfg" THEN 0
                        ELSE IF ev.e = "restart" THEN (IF ev.n = -1 THEN 0 ELSE ev.n) ELSE recv
-            /\ sending' = IF ev.e = "src-sending" /\ ev.n > sending THEN ev.n ELSE IF ev.e = "cfg" THEN 0 ELSE sending
+            /\ sending' = IF ev.e \in {"src-sending", "resume-from"} /\ ev.n > sending THEN ev.n ELSE IF ev.e = "cfg" THEN 0 ELSE sending
             /\ ckpt' = IF ev.e = "tgt-exec" /\ ev.ckpt > ckpt THEN ev.ckpt ELSE IF ev.e = "resume-from" THEN ev.n ELSE IF ev.e = "cfg" THEN 0 ELSE ckpt
             /\ conns' = IF ev.e = "src-psync" THEN conns + 1 ELSE IF ev.e \in {"cfg", "restart"} THEN 0 ELSE conns
             /\ resumed' = IF ev.e = "cfg" THEN FALSE ELSE IF ev.e = "restart" THEN ev.n # -1 ELSE (resumed \/ ev.e = "resume-from")
